@@ -43,6 +43,8 @@ pub struct TriviaStats {
     pub lead_pipe_amp: usize,
     pub shorthand: usize,
     pub non_ascii: usize,
+    /// comments that read as an import statement (inside definitions / in type system documents)
+    pub import_like: usize,
 }
 
 #[derive(Clone, Debug)]
@@ -65,6 +67,9 @@ pub struct RenderOpts {
     pub allow_shorthand: bool,
     /// non-BMP / non-ASCII characters inside comments
     pub unicode_comments: bool,
+    /// comment lines that read as `# import x from "y"`: plain comments inside the definitions of an operation
+    /// document and everywhere in a type system document
+    pub import_like_comments: bool,
 }
 
 impl RenderOpts {
@@ -83,6 +88,7 @@ impl RenderOpts {
             allow_lead_pipe: false,
             allow_shorthand: false,
             unicode_comments: false,
+            import_like_comments: false,
         }
     }
     pub fn wild() -> Self {
@@ -100,6 +106,7 @@ impl RenderOpts {
             allow_lead_pipe: true,
             allow_shorthand: true,
             unicode_comments: true,
+            import_like_comments: true,
         }
     }
 }
@@ -117,10 +124,13 @@ pub struct Out<'a> {
     pub opts: RenderOpts,
     ch: Option<&'a mut Choices>,
     in_import: bool,
+    /// the next token may start a definition of an operation document (an import-like line would be an import)
+    pub def_boundary: bool,
     pending_newline: bool,
     indent: usize,
 }
 
+const IMPORT_LIKE_POOL: &[&str] = &[" import x from \"y\"", "import * from \"./a.graphql\"", "  import A, B from \"b\" trailing", " import\tF from \"\u{e9}\""];
 const COMMENT_POOL: &[&str] = &[
     "",
     " c",
@@ -148,6 +158,7 @@ impl<'a> Out<'a> {
             opts,
             ch,
             in_import: false,
+            def_boundary: false,
             pending_newline: false,
             indent: 0,
         }
@@ -221,7 +232,11 @@ impl<'a> Out<'a> {
     }
 
     fn emit_comment(&mut self) {
-        let body = if self.opts.unicode_comments && self.chance(1, 4) {
+        let body = if self.opts.import_like_comments && !self.def_boundary && self.chance(1, 5) {
+            self.stats.import_like += 1;
+            let i = self.below(IMPORT_LIKE_POOL.len());
+            IMPORT_LIKE_POOL[i]
+        } else if self.opts.unicode_comments && self.chance(1, 4) {
             self.stats.non_ascii += 1;
             let i = self.below(COMMENT_POOL_UNI.len());
             COMMENT_POOL_UNI[i]
@@ -319,7 +334,13 @@ impl<'a> Out<'a> {
                 let after_hash = matches!(self.tokens.last(), Some(t) if t.kind == TokKind::ImportHash);
                 let n = if after_hash && !self.opts.random_trivia { 0 } else { n };
                 for _ in 0..n {
-                    self.push_raw(" ");
+                    // between `#` and `import` only spaces; elsewhere in the line also tabs, commas and the BOM
+                    if after_hash || !self.opts.random_trivia {
+                        self.push_raw(" ");
+                    } else {
+                        let c = [" ", " ", "\t", ",", "\u{FEFF}"][self.below(5)];
+                        self.push_raw(c);
+                    }
                 }
             }
         } else if self.opts.random_trivia {
@@ -343,6 +364,7 @@ impl<'a> Out<'a> {
                 self.push_raw(" ");
             }
         }
+        self.def_boundary = false;
         self.tokens.push(Tok {
             text: s.to_string(),
             line: self.line,
@@ -774,8 +796,10 @@ pub fn render_op_doc(doc: &MOpDoc, opts: RenderOpts, ch: Option<&mut Choices>) -
         o.stats.boms += 1;
     }
     for d in doc {
+        o.def_boundary = true;
         r_exec_def(&mut o, d);
     }
+    o.def_boundary = true;
     o.finish()
 }
 
